@@ -336,7 +336,9 @@ class SysAdapter(Adapter):
                     continue      # post-processed by the user; C06 covers that
                 got = np.asarray(p.totalCorr.data)
                 err = float(np.max(np.abs(got - ref))) / max(1.0, float(np.max(np.abs(ref))))
-                if got.shape != ref.shape or err > 1e-5:
+                # the object was solved to scipy's default tolerance (residual ~ 6e-6), the reference from its solution: the two differ
+                # by what that tolerance allows, not by rounding
+                if got.shape != ref.shape or err > 1e-4:
                     out.append(('SweepEqualsFresh', {'prism': n + 1, 'rel_err': err,
                                                      'what': 'solved h(r) differs from that of a freshly built System with these parameters'}))
         return out[:3]
@@ -360,7 +362,7 @@ def run(ctx):
     ctx.trusted += ['TLC 1.8.0', 'harness/systems.py factories (fresh potentials / omegas for the wiring oracle)',
                     'deep fingerprint of the System object graph']
     ctx.assumptions += ['two site types, two versions per item (listed in harness/props/c16_snapshot.py:VERS)',
-                        'solved results compared at 1e-5 relative (accuracy of two converged solves); unconverged solves skipped and counted']
+                        'solved results compared at 1e-4 relative (accuracy of two solves converged to the default tolerance); unconverged solves skipped and counted']
     # (1) completeness machine
     res = run_tlc('MC_SystemLife', cfg_text('MC_Items', 2, 1, 4, 'FillNext'), ctx.tmp, seed=ctx.seed)
     require_clean(res, 'SystemLife completeness')
